@@ -60,7 +60,7 @@ SEPS = list("/@?#&=%+:,. ")
 ODD = ['"', "<", ">", "`", "{", "}", "\\", "|", "^", "[", "]", "~", "!", "$", "'", "(", ")", "*", ";", "_", "-"]
 CTRL = ["\x00", "\x01", "\t", "\n", "\x1f", "\x7f"]
 ALNUM = list("aAzZbBmM019")
-NONASCII = ["é", "ß", "Σ", "€", "😀", "ǅ", "ǆ", "İ", "K", "ſ", "ı", "Ａ", "ᾈ", "À", "ẞ", "ﬀ", "ͅ"]
+NONASCII = ["é", "ß", "Σ", "€", "😀", "ǅ", "ǆ", "İ", "\u212a", "ſ", "ı", "Ａ", "ᾈ", "À", "ẞ", "ﬀ", "ͅ", "σ", "ς"]
 TEXTS = ["..", ".", "...", "....", "%2F", "%2f", "%41", "%", "%%", "%zz", "pkg:", "a/b", "a=b&c=d", "x@1?y#z"]
 ALPHABET = SEPS * 2 + ODD + CTRL + ALNUM * 3 + NONASCII
 
